@@ -44,7 +44,7 @@ GLOBAL_RULES = [
 class Fn:
     def __init__(self, file, owner, name, ret='r', requires=(), ensures=(), loops=None, rules=(),
                  inject=(), sig_rules=(), decreases=None, label=None, mode=None, twin_wrap=None, props=None, safety_props=None,
-                 no_twin=False, attrs=()):
+                 no_twin=False, attrs=(), ensures_if_param=()):
         self.file = file
         self.owner = owner
         self.name = name
@@ -61,6 +61,7 @@ class Fn:
         self.twin_wrap = twin_wrap   # e.g. 'impl DomXmlText': where the vacuity twin goes when it cannot sit next to the fn
         self.props = props
         self.safety_props = safety_props
+        self.ensures_if_param = list(ensures_if_param)   # [(param name, (label, expr))]: clause added only if the signature has that parameter
         self.attrs = list(attrs)    # verifier attributes emitted before the signature (e.g. exec_allows_no_decreases_clause: stated, counted)
         self.no_twin = no_twin      # trait-impl members cannot get a renamed twin; allowed only for functions without `requires`
 
@@ -155,6 +156,9 @@ def assemble(template, fns, twins=False, repo=REPO):
         sig = _apply_rules(sig, fn.sig_rules, hits)
         sig = re.sub(r'\s+', ' ', sig).strip()
         sig, _ = _named_return(sig, fn.ret)
+        for (pname, clause) in fn.ensures_if_param:
+            if re.search(r'\b' + re.escape(pname) + r'\s*:\s*&mut\b', sig) and clause not in fn.ensures:
+                fn.ensures.append(clause)
         body = rustscan.strip_comments(item.body)
         body = _apply_rules(body, GLOBAL_RULES, hits)
         body = _apply_rules(body, fn.rules, hits)
